@@ -15,31 +15,32 @@ import (
 )
 
 type Known struct {
-	ID       string `json:"id"`
-	Property string `json:"property"`
-	Status   string `json:"status"`
-	Clause   string `json:"clause"`
-	Sig      string `json:"sig"`
-	What     string `json:"what"`
-	Commit   string `json:"commit,omitempty"`
-	Replay   string `json:"replay,omitempty"`
+	ID       string   `json:"id"`
+	Property string   `json:"property"`
+	Status   string   `json:"status"`
+	Clause   string   `json:"clause"`
+	Clauses  []string `json:"clauses,omitempty"`
+	Sig      string   `json:"sig"`
+	What     string   `json:"what"`
+	Commit   string   `json:"commit,omitempty"`
+	Replay   string   `json:"replay,omitempty"`
 }
 
 type Replay struct {
-	Property string                     `json:"property"`
-	Tier     string                     `json:"tier"`
-	Seed     uint64                     `json:"seed"`
-	CaseSeed uint64                     `json:"case_seed"`
-	Index    int                        `json:"index"`
-	Clause   string                     `json:"clause"`
-	Sig      string                     `json:"sig"`
-	Detail   string                     `json:"detail"`
-	Hash     string                     `json:"event_log_hash"`
-	Streams  map[string][]uint32        `json:"tape"`
-	Workflow string                     `json:"workflow"`
-	Trace    []string                   `json:"trace"`
-	Shrink   map[string]int             `json:"shrink"`
-	TreeHash string                     `json:"tree_hash"`
+	Property string              `json:"property"`
+	Tier     string              `json:"tier"`
+	Seed     uint64              `json:"seed"`
+	CaseSeed uint64              `json:"case_seed"`
+	Index    int                 `json:"index"`
+	Clause   string              `json:"clause"`
+	Sig      string              `json:"sig"`
+	Detail   string              `json:"detail"`
+	Hash     string              `json:"event_log_hash"`
+	Streams  map[string][]uint32 `json:"tape"`
+	Workflow string              `json:"workflow"`
+	Trace    []string            `json:"trace"`
+	Shrink   map[string]int      `json:"shrink"`
+	TreeHash string              `json:"tree_hash"`
 }
 
 type Violation struct {
@@ -112,8 +113,16 @@ func loadKnown(path string) []Known {
 func matchKnown(ks []Known, v harness.Verdict) *Known {
 	for i := range ks {
 		k := &ks[i]
-		if k.Status == "known" && k.Clause == v.Clause && k.Sig == v.Sig {
+		if k.Status != "known" || k.Sig != v.Sig || k.Sig == "" {
+			continue
+		}
+		if k.Clause == v.Clause {
 			return k
+		}
+		for _, c := range k.Clauses {
+			if c == v.Clause {
+				return k
+			}
 		}
 	}
 	return nil
@@ -195,7 +204,16 @@ func run(args []string) {
 		cs := mix(*seed, idx)
 		t := simrt.NewTape(cs)
 		c := harness.NewCase(*prop, *tier, t)
+		c.KnownID = func(v harness.Verdict) string {
+			if k := matchKnown(known, v); k != nil {
+				return k.ID
+			}
+			return ""
+		}
 		v := ch.Run(c)
+		for k, x := range c.Masked {
+			res.Masked[k] += x
+		}
 		if *hashlog {
 			fmt.Printf("%d %016x %s %s %d\n", idx, c.Hash, v.Status, v.Clause, c.Steps)
 			continue
